@@ -42,7 +42,7 @@ OPERANDS = {
     'i5': lambda: 5, 'f2.5': lambda: 2.5, 'bT': lambda: True, 'sab': lambda: 'ab', 'nan': lambda: float('nan'),
     'i0': lambda: 0, 'bF': lambda: False, 'list_zeros': lambda: [0, 0, 0],
     'list_n': lambda: [1, 2, 3], 'tuple_n': lambda: (1.5, 2.5, 3.5), 'range_n': lambda: range(N),
-    'liststr': lambda: ['a', 'b', 'c'], 'listbool': lambda: [True, False, True],
+    'liststr': lambda: ['a', 'b', 'c'], 'liststr_wide': lambda: ['abcd', 'de', 'f'], 'listbool': lambda: [True, False, True],
     'list_none_item': lambda: [1, None, 3], 'list_bad_item': lambda: [1.5, 'oops', 2.5], 'list_nan_item': lambda: [1.0, float('nan'), 2.0],
     'range_1': lambda: range(7, 8), 'range_n+1': lambda: range(N + 1), 'tuple_1': lambda: (7,),
     'list_n+1': lambda: [1, 2, 3, 4], 'list_n-1': lambda: [1, 2], 'list_1': lambda: [7], 'list_0': lambda: [],
@@ -121,7 +121,7 @@ def ops_for(kind):
         ops.append(('values', None, on))
     for dt in ('float', 'int', 'str', 'bool'):
         ops.append(('add_variable_dtype', 'Znew', dt))
-    for name in (vs[0], vs[1], vs[2], 'Unknown'):
+    for name in (vs[0], vs[1], vs[2], 'Unknown', 'names', 'index'):   # 'names' / 'index': list-valued attributes of the object, not variables
         for label in (11, 99):
             for on in ('i5', 'f2.5', 'sab', 'list_n'):
                 ops.append(('setlabel', name, (label, on)))
@@ -549,11 +549,38 @@ def run_strict_name(case):
     elif not isinstance(exc, AttributeError):
         out.append(('strict:not-blocked', 'AttributeError', type(exc).__name__ if exc else 'accepted', 'an assignment to a name that is neither a variable nor an existing attribute must be blocked'))
     else:
-        hint, decided = reference_hint(name, list(obj.names) if kind != 'container' else index)  # models and linkers suggest among `names` (documented default)
-        m = re.search(r"Did you mean: '([^']*)'", str(exc))
-        got = m.group(1) if m else None
+        candidates = list(obj.names) if kind != 'container' else index
+        hint, decided = reference_hint(name, candidates)  # models and linkers suggest among `names` (documented default)
+        # the wording of the message is free: the suggestion is whichever variable name it quotes (besides the rejected name itself)
+        quoted = set(re.findall(r"['\"`]([A-Za-z_]\w*)['\"`]", str(exc))) - {name}
+        named = sorted(q for q in quoted if q in candidates)
+        got = named[0] if len(named) == 1 else (None if not named else named)
         if decided and got != hint:
             out.append(('strict:near-miss-hint', hint, got, 'the closest variable is not the one reported for %r' % name))
+    return out
+
+
+@robust()
+def run_strict_existing(case):
+    """Under strict=True every attribute the object already has (its own bookkeeping attributes included) can still be assigned."""
+    kind = case['kind']
+    obj = build(kind)
+    if case.get('late_strict'):
+        obj.add_attribute('note', 'x')
+    obj.strict = True
+    out = []
+    for k in sorted(vars(obj)):
+        if k.startswith('_') or k in obj.index:
+            continue
+        before = observe(obj)
+        try:
+            setattr(obj, k, vars(obj)[k])
+        except Exception as e:
+            out.append(('strict:existing-attribute-blocked', 'accepted', [k, type(e).__name__, str(e)[:100]], 'the attribute %r exists, yet assigning it under strict=True is rejected' % k))
+            break
+        if observe(obj) != before:
+            out.append(('strict:existing-attribute-assignment-changed-something', 'unchanged', [k] + diff_obs(before, observe(obj))[:2], 'assigning an attribute its own value changed the object'))
+            break
     return out
 
 
@@ -598,6 +625,13 @@ def run_block(block, tier, seed):
                 for key, exp, obs, what in run_strict_name(case):
                     acc.violation(key, case, exp, obs, what)
         acc.sample({'family': 'strict-names', 'kind': block['object'], 'name': 'YX'}, limit=1)
+        if block['part'] == 0:
+            for late in (False, True):
+                case = {'kind': block['object'], 'late_strict': late, 'family': 'strict-existing'}
+                acc.evaluations += 1
+                acc.nontrivial += 1
+                for key, exp, obs, what in run_strict_existing(case):
+                    acc.violation(key, case, exp, obs, what)
         return acc
     for kind, hist in _FRONT[block['lo']:block['hi']]:
         expand(kind, hist, acc)
@@ -610,6 +644,8 @@ def run_block(block, tier, seed):
 def run_one(case):
     if case.get('family') == 'strict-names':
         return run_strict_name(case)
+    if case.get('family') == 'strict-existing':
+        return run_strict_existing(case)
     return run_transition(case['kind'], tuple(case['hist_idx'][:-1]), case['hist_idx'][-1])[0]
 
 
